@@ -1,0 +1,14 @@
+//go:build verif
+// +build verif
+
+package lb
+
+// This file is only compiled with -tags verif.
+
+// VerifSetRandInt overrides the random source of the random and least-connection
+// balancers and returns the previous one.
+func VerifSetRandInt(f func() int) func() int {
+	old := randInt
+	randInt = f
+	return old
+}
